@@ -554,9 +554,17 @@ func c01Holes(c *fw.Ctx, n int) {
 		cl.EchoResults = true
 		hi := 1 + r.Intn(len(regs)-1) // never the first region: the table would look absent
 		hole := regs[hi]
-		cl.SetInMeta(hole.Name, false)
+		replicaOnly := ci%2 == 1
+		if replicaOnly {
+			// the row is there but names no server for the region itself, only the
+			// location of a read replica: the region has no known location either
+			cl.SetMetaReplicaOnly(hole.Name, "rs0:16020")
+			c.Count("holes_with_a_replica_only_row", 1)
+		} else {
+			cl.SetInMeta(hole.Name, false)
+		}
 		warm := r.Intn(2) == 0
-		descr := fmt.Sprintf("bounds=%q hole=[%q,%q) warm=%v", bounds, hole.Start, hole.Stop, warm)
+		descr := fmt.Sprintf("bounds=%q hole=[%q,%q) warm=%v replica-only-row=%v", bounds, hole.Start, hole.Stop, warm, replicaOnly)
 		c.Begin(caseID, descr)
 		client := newClient(cl, gohbase.RegionLookupTimeout(2*time.Second), gohbase.RegionReadTimeout(2*time.Second))
 		one := func(i int, kind string, key []byte, dl time.Duration) (string, error) {
@@ -635,7 +643,7 @@ func init() {
 			"40..70 sequential requests of all kinds incl. batches over boundary-adjacent keys; every executed action " +
 			"judged by owner(table,row)==(region,server) and meta lookups counted per first touch; then 8 concurrent callers x 6 requests " +
 			"(no lookup for keys of regions resolved before, no misrouting); (3) tables whose hbase:meta lacks the row of one " +
-			"region: keys in the hole are never sent anywhere. distinct wire case = " +
+			"region, or lists only a read replica's location for it: keys in the hole are never sent anywhere. distinct wire case = " +
 			"(kind, table, layout, keys)",
 		Assumptions: []string{
 			"the simulated hbase:meta answers lookups semantically (tuple order), independent of the client's comparator",
